@@ -157,7 +157,7 @@ class FakeCircuit:
         self.dag = FakeDag(n)
         self.origin = origin  # the object this one was copied from (identity), None for an original
 
-    def copy(self):
+    def copy(self, *args, **kwargs):  # extra arguments of a refactored caller are accepted
         return FakeCircuit(len(self.dag.nodes), origin=self)
 
     def __deepcopy__(self, memo):
@@ -474,6 +474,10 @@ def synth_update_hof(ctx, res, drv, heavy=False):
                                 fn(solver, [(s, FakeCircuit(n)) for s, n in past])
                             pop = [(s, FakeCircuit(n)) for s, n in combo]
                             recs.append(run_update_hof_case(res, lines, fn, solver, pop, f"{name}:exhaustive"))
+                            if recs[-1][5] is not None:
+                                # the case raised (already compared / reported by run_update_hof_case): its history must not be replayed at the
+                                # next depth — the replay is not under a `try` and would end run() as a harness crash, losing the report
+                                continue
                             sig = tuple((float(s), None if c is None else len(c.dag.nodes)) for s, c in solver.hof)
                             if sig not in seen and len(seen) < max_states:
                                 seen.add(sig)
@@ -916,6 +920,11 @@ def compare_run(res, job, out, rep, fps):
             # raised while building the population, transforming, compiling or evaluating: these are parameters of the model
             # (Params.mutate / Params.metric are total), so there is nothing to compare; reproducibility of the failure is still checked
             res.count("errors", f"solve:raised-outside-model:{out['error']}")
+            # ... but the model is still asked: for the malformed configurations it predicts an error class itself (and a well-formed one
+            # raising is a violation, run_jobs_analyse); an error the model does not predict, or of another class, is a correspondence break
+            if rep["_status"] != "err" or rep.get("_err") != out["error"]:
+                res.exact_break("solve:error-stage", input=inp, impl=f"err {out['error']} before any update_hof / update_logs event of generation {logs_done}: {out.get('error_msg')}",
+                                model=rep["_raw"][:300])
             return
         if rep["_status"] != "err" or rep.get("_err") != out["error"] or int(rep.get("gen", -1)) != max(gen_fail, logs_done):
             res.exact_break("solve:error-class", input=inp, impl=f"err {out['error']} after {len(ups)} update_hof / {logs_done} update_logs calls: {out.get('error_msg')}",
@@ -1075,6 +1084,9 @@ def oracle_run(res, job, out):
             bad("solve:hof-changed-after-last-generation", "final hall of fame differs from the one after the last update_hof")
     # logs
     logs = out.get("logs") or {}
+    if "error" in logs:
+        # the worker could not read solver.logs (evoutil.run_job): the clause "the logs agree with the hall of fame" would disappear silently
+        bad("solve:logs-unreadable", f"solver.logs of a finished run cannot be read as (iteration, cost_min, cost_max, cost_mean) columns: {logs['error']}")
     if "hof" in logs and ups:
         cm = logs["hof"]["cost_min"]
         if len(cm) != len(ups) or any(abs(c - min(eu.unratio(d["s"]) for d in e["hof"])) > 1e-12 for c, e in zip(cm, ups)):
@@ -1150,6 +1162,13 @@ def run_jobs_analyse(ctx, res, drv, pool, jobs, collected):
     wit = {}
     nod = {}
     for (ji, role), out in zip(roles, outs):
+        if out is not None and "infra_error" in out and out.get("impl_error"):
+            # the worker failed inside $REPO code outside solve() (reading solver.result / hof / to_openqasm after the run, or the
+            # node-order walk): the implementation raising on a valid configuration, not an infrastructure failure
+            res.count("errors", f"worker:raises:{out['impl_error']}")
+            res.violation(f"solve:result-unreadable:{out['impl_error']}", f"reading the result of a finished run (or the transformation walk) raised: {str(out.get('infra_error'))[:200]}",
+                          input={"kind": "job", "job": out.get("job"), "role": role}, where=str(out.get("tb", ""))[-400:])
+            continue
         if out is None or "infra_error" in (out or {}):
             res.notes.append(f"infrastructure: worker failed on a job: {(out or {}).get('infra_error')}")
             res.extra["infra_failures"] = res.extra.get("infra_failures", 0) + 1
@@ -1162,6 +1181,7 @@ def run_jobs_analyse(ctx, res, drv, pool, jobs, collected):
             by_job.setdefault(ji, {})[role] = out
     # ---- per configuration: correspondence, oracle, reproducibility
     lines, recs = [], []
+    n_runs_seen = 0
     for ji, runs in by_job.items():
         job = jobs[ji]
         a = runs.get("A")
@@ -1181,9 +1201,16 @@ def run_jobs_analyse(ctx, res, drv, pool, jobs, collected):
         for role, out in runs.items():
             oracle_run(res, job, out)
         sl = solve_line(job, a)
+        n_runs_seen += 1
         if sl is not None:
             lines.append(sl[0])
             recs.append((job, a, sl[1]))
+        elif "error" not in a:
+            # a finished run without an `init` event in its trace (population_initialization renamed / bypassed) cannot be replayed by the
+            # model: it used to be left out of the whole-run correspondence without a word
+            res.count("errors", "solve:no-init-event")
+            res.exact_break("solve:no-init-event", input={"kind": "job", "job": job}, impl="the traced run finished without a population_initialization event",
+                            model="every run starts with population_initialization")
         # reproducibility
         for role in ("A2", "B", "C"):
             o = runs.get(role)
@@ -1201,6 +1228,7 @@ def run_jobs_analyse(ctx, res, drv, pool, jobs, collected):
         ups = [e for e in (a.get("trace") or []) if e["ev"] == "update_hof"]
         if ups and any(d["o"] is not None for d in ups[-1]["hof"]):
             res.nontrivial("run", json.dumps(job, sort_keys=True))
+    common.coverage_floor(res, "whole runs replayed by the model", len(lines), n_runs_seen, what="traced runs")
     for rep, (job, a, fps) in zip(drv.batch(lines), recs):
         compare_run(res, job, a, rep, fps)
         res.branch([f"solve:{job['solver']}:sel={job['sel']}:adapt={job['adapt']}"])
@@ -1213,6 +1241,13 @@ def run_jobs_analyse(ctx, res, drv, pool, jobs, collected):
         res.evaluations += 1
         fh0 = [(d["s"], d["qasm"]) for d in w0.get("final_hof", [])]
         fh1 = [(d["s"], d["qasm"]) for d in w1.get("final_hof", [])]
+        for w in (w0, w1):
+            if "error" in w:
+                # the witness configuration is well-formed and is not among `jobs`: two runs that raise identically have equal digests and
+                # would be recorded as "identical"
+                res.violation(f"solve:raises:{w['error']}", f"solve() raised on the (well-formed) regression configuration: {str(w.get('error_msg'))[:200]}",
+                              input={"kind": "job", "job": WITNESS_JOB, "hashseed": w.get("hashseed")})
+                break
         if w0.get("digest") != w1.get("digest"):
             k, desc, cause = first_divergence(w0.get("trace") or [], w1.get("trace") or [])
             res.violation(f"repro:hashseed:{cause}",
